@@ -4,6 +4,7 @@ import SC.Properties.C09
 import SC.Properties.C10
 import SC.Properties.C08
 import SC.Properties.C12
+import SC.Properties.C11
 /-!
 # C15 — ill-formed UTF-8: every bad byte is one U+FFFD, in every function alike
 
@@ -48,6 +49,11 @@ theorem search_any_bytes (cfg : A.Cfg) (s t : Bytes) (r : Int) :
 theorem search_any_bytes2 (cfg : A.Cfg) (s t : Bytes) :
     A.LastIndex cfg s t = S.lastIndex s t ∧ A.Count cfg s t = (S.count s t : Nat) ∧ A.Cut cfg s t = some (S.cut s t) :=
   ⟨C08.lastIndex_refines cfg s t, C12.count_refines cfg s t, C12.cut_refines cfg s t⟩
+
+theorem search_any_bytes3 (cfg : A.Cfg) (s t : Bytes) :
+    A.IndexAny cfg s t = S.indexAny s t ∧ A.LastIndexAny cfg s t = S.lastIndexAny s t ∧
+    A.ContainsAny cfg s t = S.containsAny s t :=
+  ⟨A.IndexAny_eq cfg s t, A.LastIndexAny_eq cfg s t, A.ContainsAny_eq cfg s t⟩
 
 /-- the examples of the property statement, on the specification and on the algorithm model -/
 example : S.index [0x61, 0xFF] [0xEF, 0xBF, 0xBD] = 1 ∧ A.Index {} [0x61, 0xFF] [0xEF, 0xBF, 0xBD] = 1 ∧
